@@ -3,6 +3,7 @@ import OnetVerif.Model.C09Entries
 import OnetVerif.Model.C09Local
 import OnetVerif.Model.C09Recv
 import OnetVerif.Model.C09Pause
+import OnetVerif.Model.C09Self
 import OnetVerif.Generated
 /-! Model for property C09 — peer failures are contained, reported to senders, and recoverable
 (core-only).
@@ -118,6 +119,17 @@ def send (s : St) (p : Peer) (msgs : List Nat) (staleOk : Bool) : St × Res :=
       match connect s p with
       | (s1, none) => (s1, .err)
       | (s1, some c) => sendMsgs s1 p c staleOk msgs
+
+/-- `Router.Send(e, msgs...)` for any destination, the router's own identity (`self`) included: state afterwards,
+answer, and what was handed to the own dispatcher -/
+def sendAny (self : Peer) (s : St) (p : Peer) (msgs : List SelfMsg) (staleOk : Bool) : St × Res × List Nat :=
+  if msgs.isEmpty then (s, .err, [])       -- "need to send at least one message"
+  else if p = self then
+    let o := selfSend msgs
+    (s, o.res, o.dispatched)
+  else
+    let r := send s p (msgs.map (·.m)) staleOk
+    (r.1, r.2, [])
 
 /-- `removeConnection` (router.go:383-403): inside the peer's slice the entry is overwritten by the
 last one and the slice is shortened -/
@@ -338,7 +350,8 @@ def setTni (d : State) (k : Nat) (t : Tni) : State :=
   peer q through the router it is registered with
 * `send <entry> <dests> <n>` — the entry point towards these peers, n messages per `Router.Send`
   (n = 0 only for `router`: "need to send at least one message"); answer `<ok|err:k> delivered=<d>`
-* `selfsend <n>` — `Router.Send` to the own identity: dispatched directly, never fails
+* `selfsend <n> [<k>]` — `Router.Send` of n messages to the own identity (`sendAny`): dispatched directly; with `k`, the
+  k-th message has no processor: the call ends there with an error, the k messages before it stay dispatched
 * `par <entry> <dead peers> <healthy peer>` — one send per dead peer through that entry point, all
   running at the same time, and meanwhile a router send to the healthy peer. Sends are atomic steps
   of the model and sends about different peers commute (`c09_contained`), so the answer is that of
@@ -406,8 +419,19 @@ def step (d : State) (toks : List String) : State × String :=
     | _, _ => (d, "bad-op")
   | ["selfsend", n] =>
     match n.toNat? with
-    | some n => (d, if n = 0 then "err:1 delivered=0" else s!"ok delivered={n}")
+    | some n =>
+      -- the survivor is none of the numbered peers: `self` is a number no peer has
+      let r := sendAny 1000000 s 1000000 ((List.range n).map fun i => { m := i, handled := true }) false
+      (d, (if r.2.1 = .ok then "ok" else "err:1") ++ s!" delivered={r.2.2.length}")
     | none => (d, "bad-op")
+  | ["selfsend", n, k] =>
+    -- … the k-th of the n messages (from 0) is of a type the survivor has no processor for
+    match n.toNat?, k.toNat? with
+    | some n, some k =>
+      if k ≥ n then (d, "bad-op") else
+      let r := sendAny 1000000 s 1000000 ((List.range n).map fun i => { m := i, handled := i != k }) false
+      (d, (if r.2.1 = .ok then "ok" else "err:1") ++ s!" delivered={r.2.2.length}")
+    | _, _ => (d, "bad-op")
   | ["par", e, ds, hp] =>
     match Util.natList ds, hp.toNat? with
     | some ds, some hp =>
